@@ -180,6 +180,11 @@ SEEDS = {
     "C08i-identical-bunch-copy-from-bunch0": ("C08", "three or more bunches with a run of bit-identical bunches that does not start at bunch 0 and differs from bunch 0 (-I 2e-3 1e-3 1e-3), no impedance: the drift copies the result of 'the predecessor' from bunch 0's block", ["C03"]),
     "C04i-quadratic-stencil-one-cell-high": ("C04", "--InterpolationPoints 3 with a number of steps per period that is not small against the grid size: the three nodes sit one cell too high (weights unchanged), every kick and drift carries the bunch one extra cell, the centroid spirals out", ["C02", "C03"]),
     "C05i-wake-table-drops-whole-cells": ("C05", "a wake kick of one cell per step or more in the core (fine grid, few steps per period, order-one potential-well distortion, e.g. -s 128 -N 24 at 15 mA): the wake map's own table builder applies W - floor(W) while the record shows W", ["C08", "C01"]),
+    "C13i-zoom-dropped-when-start-file-option-present": ("C13", "InitialDistFile given anywhere (in particular -i /dev/null, 'no read-in', over a parent config naming a file) plus a non-default InitialDistZoom: the zoom line is dropped from the saved .cfg whenever the start-file OPTION is present", []),
+    "C15i-drift-particles-by-secant-slope": ("C15", "particle tracking with a nonlinear momentum compaction (--alpha1 / --alpha2) and a particle away from zero energy: a new DriftMap::applyTo moves particles by the secant slope of the displacement table, the grid by the curved table", []),
+    "C16i-wall-scales-with-mu-not-sqrt-mu": ("C16", "a non-zero wall susceptibility with a positive conductivity: a skin-depth rewrite leaves mu_r out of the skin depth, the wall impedance scales with (1+xi) instead of sqrt(1+xi)", []),
+    "C19i-verbose-log-drains-modulation-records": ("C19", "RF modulation with --verbose and an HDF5 output with outstep > 0: a verbose status line reads getPastModulation() (which empties the store) right before the records are written - only those after the last in-loop output reach the file", ["C12"]),
+    "C20i-tracking-in-config-has-no-target": ("C20", "the option tracking given in a config file and not on the command line: the config-file twin of the option lost its store-to pointer, the value never reaches the member (the saved .cfg still shows it)", ["C13"]),
     "C10-": ("C10", "", []),
     "C17-": ("C17", "", []),
 }
